@@ -115,10 +115,10 @@ def run(ctx):
     ctx.rule("R17.c", "state tables agree: every slot of _InstancePrivate/_ClassPrivate is assigned on every path of __init__ (getstate reads each), "
                       "their getstate/setstate iterate __slots__, Parameter.__getstate__ iterates _all_slots_", floor=5)
     ctx.rule("R17.d", "Parameterized.__setstate__ re-creates a fresh private namespace, restores every saved attribute and marks the object initialized only at the end", floor=1)
-    ctx.rule("R17.c", "a copy shares no mutable class-level state with its original: no class body in param / numbergen binds a mutable container to an attribute that a method mutates in "
+    ctx.rule("R17.n", "a copy shares no mutable class-level state with its original: no class body in param / numbergen binds a mutable container to an attribute that a method mutates in "
                       "place through self (such an attribute never enters the instance __dict__, so __getstate__ does not save it and copy and original keep using one object) -- shared with R19.s", floor=1)
     from checks.shared import no_shared_mutable_class_state
-    no_shared_mutable_class_state(ctx, "R17.c")
+    no_shared_mutable_class_state(ctx, "R17.n")
     ctx.not_decided += ["value equality and independence of the copy (heap shape at run time)", "user-supplied callables registered through the public watch API"]
 
     # ---------------------------------------------------------------- R17.a
